@@ -481,12 +481,24 @@ func batches(run *ev.Run) (int, int) {
 				}
 				evals++
 				distinct++
-				if k, d := oneBatch(op, shape, names); k != "" {
-					var sn []string
-					for _, s := range shape {
-						sn = append(sn, names[s])
+				for _, remoteFails := range []bool{false, true} {
+					if remoteFails && n < 2 {
+						continue
 					}
-					run.Violation(k+":"+op, fmt.Sprintf("%s%v: %s", op, sn, d), map[string]interface{}{"op": op, "shape": sn})
+					if remoteFails {
+						evals++
+						distinct++
+					}
+					if k, d := oneBatch(op, shape, names, remoteFails); k != "" {
+						var sn []string
+						for _, s := range shape {
+							sn = append(sn, names[s])
+						}
+						if remoteFails {
+							k += ":remote-partition-unreachable"
+						}
+						run.Violation(k+":"+op, fmt.Sprintf("%s%v (remote partition's node answers with an rpc error: %v): %s", op, sn, remoteFails, d), map[string]interface{}{"op": op, "shape": sn, "remote_fails": remoteFails})
+					}
 				}
 			}
 		}
@@ -499,7 +511,7 @@ type def struct{}
 func (def) Pick(s *vrt.Sched, alts []vrt.Alt, costs []int) int { return 0 }
 
 // oneBatch runs one batch through node 1 of a 2-node cluster: partition 0 on node 1, 1 on node 2.
-func oneBatch(op string, shape []itemKind, names map[itemKind]string) (key, desc string) {
+func oneBatch(op string, shape []itemKind, names map[itemKind]string, remoteFails bool) (key, desc string) {
 	fakes.Reset()
 	vrt.ResetContexts()
 	s := vrt.New()
@@ -516,6 +528,14 @@ func oneBatch(op string, shape []itemKind, names map[itemKind]string) (key, desc
 	var meta *pb.Dataset
 	nodes, meta = clusterSeq(x, 2, [][]uint64{{1}, {2}})
 	idx := []*index.Hnsw{nodes[0].Dataset(meta).VerifPartition(0).Index(), nodes[1].Dataset(meta).VerifPartition(1).Index()}
+	if remoteFails {
+		fakes.Intercept = func(target, method string, ctx context.Context, req interface{}) (bool, interface{}, error) {
+			if target == world.Addr(2) && strings.HasPrefix(method, "PartitionBatch") {
+				return true, nil, fakes.ErrUnavailable
+			}
+			return false, nil, nil
+		}
+	}
 	// existing items: one per partition
 	idx[0].Insert(ids[3], []float32{5}, nil, 0)
 	idx[1].Insert(ids1[3], []float32{5}, nil, 0)
@@ -550,6 +570,11 @@ func oneBatch(op string, shape []itemKind, names map[itemKind]string) (key, desc
 		id := uuid.FromBytesOrNil(it.Id)
 		if op != "BatchRemove" && len(it.Value) != 1 {
 			wantErr[id] = "dimension"
+			continue
+		}
+		if remoteFails && utils.UuidMod(id, 2) == 1 {
+			// the remote partition cannot be reached: every one of its items fails, nothing is applied there
+			wantErr[id] = "unreachable"
 			continue
 		}
 		_, present := ref[id]
@@ -619,6 +644,8 @@ func oneBatch(op string, shape []itemKind, names map[itemKind]string) (key, desc
 			if !strings.Contains(strings.ToLower(e.Error()), "dimension") {
 				return "batch-error-kind-wrong", fmt.Sprintf("id %x: %v, expected a dimension error", id[:2], e)
 			}
+		} else if w == "unreachable" {
+			// any error will do
 		} else if e.Error() != w {
 			return "batch-error-kind-wrong", fmt.Sprintf("id %x: %v, expected %s", id[:2], e, w)
 		}
